@@ -2347,6 +2347,19 @@ def layers(T, d):
             not inner[2] and not inner[3]):
         pass
     elif inner[0] == "call" and inner[1] == ("global", "dict") and \
+            len(inner[2]) == 1 and not inner[3] and \
+            inner[2][0][0] == "new" and inner[2][0] != d and \
+            strip_new(inner[2][0])[0] in ("dict", "call", "dictcomp"):
+        # a copy of a dictionary built up in this function: its layers, all
+        # of which must have been written before the copy is taken
+        sub = layers(T, inner[2][0])
+        if any(not (cfg.dominates(n_, cnode) or (
+                cfg.reaches(n_, cnode) and not cfg.reaches(cnode, n_)))
+               for l_, n_ in sub):
+            raise AnalysisError("layers: the dictionary copied is written "
+                                "after the copy is taken")
+        events.extend(sub)
+    elif inner[0] == "call" and inner[1] == ("global", "dict") and \
             len(inner[2]) == 1 and not inner[3]:
         events.append((("all", src(inner[2][0])), cnode))
     elif inner[0] == "dictcomp" and len(inner[2]) == 1 and \
@@ -2442,6 +2455,13 @@ def layers(T, d):
                 layer = ("all", s_)
             elif guard == [(("cmp", "In", key, d), True)]:
                 layer = ("present", s_)
+            elif any(st_ in (("item", d, key), ("get", d, key))
+                     for g_, p_ in guard for st_ in subterms(g_)):
+                # written depending on the value the dictionary holds for
+                # that key at the moment (e.g. only while it is still some
+                # default): neither "all" nor "present"
+                layer = ("if-current-value", s_,
+                         tuple((plain(g_), p_) for g_, p_ in guard))
         elif s_[0] == "zip" and key[:2] == ("elem", s_[1]) and \
                 val[:2] == ("elem", s_[2]) and not guard:
             layer = ("all", s_)
